@@ -36,6 +36,28 @@ type Case struct {
 	// RecordFull: the day's record file is a symbolic link to /dev/full, so every record write fails
 	// (a full filestore).  The pass-through must be unaffected; the record is not compared.
 	RecordFull bool `json:"record_filestore_full"`
+	// MidnightIn > 0: the program runs with a private time zone (a generated TZif file named by TZ) in which
+	// local midnight falls that many seconds after it starts; the input then trickles in for several
+	// seconds, so the run crosses midnight (the daily record file changes its name).
+	MidnightIn int `json:"local_midnight_in_seconds"`
+}
+
+// tzif builds a minimal TZif (version 1) file for a fixed offset from UTC.
+func tzif(offsetSeconds int) []byte {
+	b := []byte("TZif")
+	b = append(b, 0)                   // version 1
+	b = append(b, make([]byte, 15)...) // reserved
+	put := func(v uint32) { b = append(b, byte(v>>24), byte(v>>16), byte(v>>8), byte(v)) }
+	put(0) // isutcnt
+	put(0) // isstdcnt
+	put(0) // leapcnt
+	put(0) // timecnt
+	put(1) // typecnt
+	put(4) // charcnt
+	put(uint32(int32(offsetSeconds)))
+	b = append(b, 0, 0) // isdst, abbreviation index
+	b = append(b, 'F', 'I', 'X', 0)
+	return b
 }
 
 type lockedBuf struct {
@@ -119,6 +141,17 @@ func check(c Case, o *stats.Obs) error {
 	cmd := exec.Command(bin, "-c", cfgPath)
 	cmd.Dir = dir
 	cmd.Env = append(os.Environ(), fmt.Sprintf("GOMAXPROCS=%d", c.Procs))
+	if c.MidnightIn > 0 {
+		now := time.Now().UTC()
+		sod := now.Hour()*3600 + now.Minute()*60 + now.Second()
+		off := (86400 - c.MidnightIn - sod) % 86400 // local = UTC + off = 24:00:00 - MidnightIn
+		if off > 43200 {
+			off -= 86400
+		}
+		tzPath := filepath.Join(dir, "private.tzif")
+		os.WriteFile(tzPath, tzif(off), 0o644)
+		cmd.Env = append(cmd.Env, "TZ="+tzPath)
+	}
 	if os.Getenv("VERIF_INSTRUMENTED") != "" {
 		cmd.Env = append(cmd.Env, fmt.Sprintf("VERIF_YIELD=%d:2:300:1", c.YieldSeed+1))
 	}
@@ -164,6 +197,9 @@ func check(c Case, o *stats.Obs) error {
 				}
 				if c.PauseUs > 0 && k <= 20 {
 					time.Sleep(time.Duration(c.PauseUs) * time.Microsecond)
+				}
+				if c.MidnightIn > 0 {
+					time.Sleep(900 * time.Millisecond)
 				}
 			}
 			w.Close()
@@ -228,6 +264,10 @@ func check(c Case, o *stats.Obs) error {
 	if c.Live && c.Pipe {
 		o.Class("live-pipe")
 	}
+	if c.MidnightIn > 0 {
+		names, _ := filepath.Glob(filepath.Join(logDir, "rtcmlogger.*.rtcm"))
+		o.Class(fmt.Sprintf("crosses-local-midnight/%d-record-files", len(names)))
+	}
 	if c.Pipe {
 		o.Class("pipe")
 	} else {
@@ -271,6 +311,18 @@ func gen1(t *rapid.T) Case {
 	c.RecordFull = rapid.IntRange(0, 9).Draw(t, "recordFull") == 5
 	return c
 }
+
+// The run crosses local midnight: eight chunks, one roughly every second, midnight after 3-4 seconds.
+func genMidnight(t *rapid.T) Case {
+	c := Case{Len: rapid.IntRange(800, 8000).Draw(t, "len"), Seed: rapid.Uint64Range(0, 1<<32).Draw(t, "seed"), Pipe: true,
+		Procs: rapid.SampledFrom([]int{1, 4}).Draw(t, "procs"), MidnightIn: rapid.IntRange(3, 4).Draw(t, "midnightIn")}
+	c.Chunks = []int{c.Len/8 + 1}
+	return c
+}
+
+var propMidnight = stats.Prop(R, "midnight", genMidnight, check)
+
+func TestMidnight(t *testing.T) { rapid.Check(t, propMidnight) }
 
 var prop = stats.Prop(R, "run", gen1, check)
 
